@@ -108,7 +108,9 @@ class CtlGen:
     def test(self, loop=False):
         opts = ["ext"]
         if self.arg_tests and not loop:
-            opts += ["x < y", "x == 1", "not x", "c.a", "c[0]", "c[1] < 1", "ext2(0) < ext2(1)"]
+            # `u` is bound nowhere: evaluating the test raises NameError - a test of names and comparisons only is not
+            # free of effects
+            opts += ["x < y", "x == 1", "not x", "c.a", "c[0]", "c[1] < 1", "ext2(0) < ext2(1)", "u < 1", "u"]
         o = opts[self.ch.choose(len(opts))]
         if o == "ext":
             s = self.site
